@@ -398,7 +398,7 @@ def run_big(shard, rec, B):
                 check_map_state(rec, B, gen.rand_nonid(rng, N), 2 * int(rng.integers(2)), list(range(N)), N, rng)
         if t == 0:
             # very long lists on few qubits, and tableaux / maps with >= 1024 rows (N >= 512)
-            for L in (gen.HUGE_LS if B.name == "np" else [4097, 5000, 9000, 65537]):
+            for L in (gen.HUGE_LS if B.name == "np" else [4097, 5000, 9000, 65537, 131073, 262145, 300001, 524289, 1048577]):
                 N = int(rng.integers(2, 5))
                 gs = rng.integers(0, 2, (L, 2 * N))
                 ps = rng.integers(0, 4, L)
